@@ -78,6 +78,17 @@ func (w *World) raisesBits(in ssa.Instruction, bits uint64) bool {
 		}
 	case *ssa.Call:
 		if !w.isGoErrorCall(x) {
+			// a helper that hands a Condition of its caller through (d.Set(NaN); return c.goError(res)):
+			// what is raised is what the caller passes
+			if g := callee(x); w.isCondTransformer(g) {
+				for i, p := range g.Params {
+					if typeIs(p.Type(), apdPath, "Condition") && !isPointer(p.Type()) && i < len(x.Common().Args) {
+						if valueCarriesBits(x.Common().Args[i], bits, 0) {
+							return true
+						}
+					}
+				}
+			}
 			// an unexported helper every return of which raises the bits (e.g. "set NaN and return InvalidOperation")
 			if g := callee(x); g != nil && w.inPkg(g) && (g.Object() == nil || !g.Object().Exported()) && w.condResultIndex(g) >= 0 && !w.raiseBusy[g] {
 				if w.raiseBusy == nil {
@@ -170,6 +181,20 @@ func ruleInvalidNaNPairing(w *World, r *RuleResult) {
 			key := fmt.Sprintf("%s | NaN result #%d carries an invalid-class flag", name, i+1)
 			before := seenBefore(c, raise(invalid)) || raise(invalid)(c) // a helper may store NaN and raise in one call
 			after, _ := mustPassFrom(c, raise(invalid), errExempt)
+			if !before && !after && w.isCondTransformer(f) && !w.addressTaken(f) {
+				// the condition is the caller's: every call site passes one of the class
+				sites := w.allCallsTo(name)
+				all := len(sites) > 0
+				for _, s := range sites {
+					if !w.raisesBits(s, invalid) {
+						all = false
+					}
+				}
+				if all {
+					r.ok(key, w.instrPos(c), fmt.Sprintf("the helper returns the Condition it is handed, and each of its %d call sites hands it an invalid-class flag", len(sites)), true)
+					continue
+				}
+			}
 			if before || after {
 				r.ok(key, w.instrPos(c), "InvalidOperation/DivisionUndefined/DivisionImpossible is raised on every path through this store", true)
 			} else {
@@ -446,6 +471,31 @@ func (w *World) localDerivesFromSigns(f *ssa.Function, c *ssa.Call, rendered str
 				return true
 			}
 		}
+	}
+	return false
+}
+
+// valueCarriesBits: the Condition value v has one of the bits set whatever path produced it: a constant with
+// the bit, an | with such a value, or a φ all of whose incoming values carry one.
+func valueCarriesBits(v ssa.Value, bits uint64, depth int) bool {
+	if depth > 6 {
+		return false
+	}
+	if k, ok := condBits(v); ok && typeIs(v.Type(), apdPath, "Condition") {
+		return k&bits != 0 && k < 1<<12
+	}
+	switch x := v.(type) {
+	case *ssa.BinOp:
+		if x.Op == token.OR {
+			return valueCarriesBits(x.X, bits, depth+1) || valueCarriesBits(x.Y, bits, depth+1)
+		}
+	case *ssa.Phi:
+		for _, e := range x.Edges {
+			if !valueCarriesBits(e, bits, depth+1) {
+				return false
+			}
+		}
+		return len(x.Edges) > 0
 	}
 	return false
 }
